@@ -231,6 +231,7 @@ type outcome struct {
 	Trace    []dynAccess
 	Reject   string
 	Grows    int
+	Callees  map[string]int
 }
 
 type trapErr struct{ kind string }
@@ -454,9 +455,18 @@ func (e *exec) step(s *step) error {
 			e.since[s.Var]["bump"] = true
 		}
 	case "call":
+		if e.out.Callees == nil {
+			e.out.Callees = map[string]int{}
+		}
+		e.out.Callees[s.Callee]++
 		switch s.Callee {
-		case "grow", "hostgrow", "xgrow":
+		case "grow", "hostgrow", "xgrow", "hostreenter":
 			e.doGrow(s.Pages, "call-grow")
+		case "hostwrite": // api.Memory.WriteUint32Le: no effect when out of range
+			if uint64(s.SrcK)+4 <= e.m.size() {
+				e.m.wr(uint64(s.SrcK), leBytes(uint64(s.FillVal), 4))
+			}
+			e.event("call")
 		default:
 			e.event("call")
 		}
